@@ -62,6 +62,9 @@ class Work:
 # --------------------------------------------------------------------------- driver build
 def build_driver(work, race=False):
     """go build the driver from /repo's working tree with the overlay; returns the binary path."""
+    if os.environ.get("VERIF_DRIVER") and not race:
+        # lib/coverage.sh: a driver built elsewhere with -cover (go build -cover cannot read overlay files)
+        return os.environ["VERIF_DRIVER"]
     replace = {}
     drv = os.path.join(VERIF, "harness", "driver")
     for f in sorted(os.listdir(drv)):
@@ -80,6 +83,7 @@ def build_driver(work, race=False):
     cmd = ["go", "build", "-tags", "verif", "-overlay", ov, "-o", out]
     if race:
         cmd.append("-race")
+
     cmd.append("./internal/zzverif/driver")
     t0 = time.time()
     p = subprocess.run(cmd, cwd=REPO, env=GOENV, capture_output=True, text=True)
